@@ -10,7 +10,7 @@ import vlib
 from vlib import Check, ModelError
 
 SPEC = os.path.join(vlib.ROOT, "spec", "Io")
-P_INV = ["P_WriteSucceeds", "P_Counts", "P_FileIsWrite", "P_ReadBack", "P_PathWriter", "P_ReaderIsRead"]
+P_INV = ["P_WriteSucceeds", "P_Counts", "P_FileIsWrite", "P_ReadBack", "P_PathWriter", "P_NoRebaseWriter", "P_ReaderIsRead"]
 NUM = re.compile(r"^[-+]?(\d+\.?\d*|\.\d+)([eE][-+]?\d+)?$")
 
 
@@ -134,7 +134,7 @@ def run(tier, seed, replay=None):
         n = r["ncells"]
         cells = [r["cell%d" % i] for i in range(n)]
         f = tokenise(r["path"], r["scale"], n)
-        rd = {"ok": r["read"]["ok"], "types": r["read"]["types"], "cells": [], "prec_ok": True, "path_same": r["read"].get("path_same", True)}
+        rd = {"ok": r["read"]["ok"], "types": r["read"]["types"], "cells": [], "prec_ok": True, "path_same": r["read"].get("path_same", True), "norebase_same": r["read"].get("norebase_same", True)}
         for m in r["read"]["cells"]:
             nodes = []
             for a in range(0, len(m["nodes"]), 3):
